@@ -5,6 +5,12 @@ RT_COMPONENTS = {
     "stub": ["wrapped filter: token-recording stand-in exposing config.max_dt_sec, control_size, process_model, sensor_model, make_reading (Python) / Impl with Tag (C++)"],
 }
 
+EKF_COMPONENTS = {
+    "real": ["formak.python.compile_ekf / ExtendedKalmanFilter / SensorModel / Model / BasicBlock", "formak.common named_vector / named_covariance / model_validation", "formak.ui.Model", "formak.runtime.ManagedFilter (rt_ekf leg)", "numpy, sympy (trusted)"],
+    "stub": [],
+}
+EKF_ASSUMPTIONS = ["domain guards on the reference side: |x|<=1e4, |P|<=1e6, cond(S)<=1e5 (run truncated at that op, earlier ops stay checked)", "tolerance 1e-9 (state, innovation, S) / 1e-8 (covariance) relative to 1+max|ref|", "reference EKF re-seeded from the SUT's actual inputs at every step"]
+
 PLANS = {
     "C10": {
         "level": "exploration",
@@ -25,5 +31,44 @@ PLANS = {
         "expect_probes": ["probe:backward", "probe:delta_zero", "fault:reorder", "fault:stale", "fault:future", "fault:dup_of", "fault:burst", "fault:stall", "fault:clock_jump", "fault:zero_tick", "fault:dup_tick", "fault:missing_control"],
         "components": RT_COMPONENTS,
         "assumptions": ["bit-equality of Python and C++ traces is a probe statistic, not demanded"],
+    },
+    "C04": {
+        "level": "exploration",
+        "legs": [{"world": "ekf", "quick": {"runs": 320, "budget_s": 60}, "thorough": {"runs": 12000, "budget_s": 800}, "run_timeout": 120, "chunk": 4},
+                 {"world": "rt_ekf", "quick": {"runs": 100, "budget_s": 30}, "thorough": {"runs": 4000, "budget_s": 300}, "run_timeout": 120, "chunk": 4}],
+        "rule": "each run = swarm-drawn (or curated) model with adversarially sorted names, random declaration order/container, CSE on/off, k, max_dt + a seeded history of process_model / sensor_model calls on the real compiled Python EKF (directly, or through the real ManagedFilter so that dt takes the values real propagation produces, both signs); every prediction is compared with the name-keyed reference re-seeded from the SUT's actual inputs; faults: duplicate call (immediate and deferred), input snapshot. non-trivial = >=1 fault, >=3 ops, >=2 abstract signatures",
+        "abstract_measure": "distinct (op kind, reading size, reject parity, #states/#controls/#calibration) tuples",
+        "expect_probes": ["fault:duplicate_call", "fault:duplicate_call_deferred", "probe:negative_dt", "probe:controls=0", "probe:controls=3", "probe:calibration=yes", "probe:cse_on", "probe:cse_off", "probe:model_singular_jacobian"],
+        "components": EKF_COMPONENTS,
+        "assumptions": EKF_ASSUMPTIONS,
+    },
+    "C05": {
+        "level": "exploration",
+        "legs": [{"world": "ekf", "quick": {"runs": 320, "budget_s": 60}, "thorough": {"runs": 12000, "budget_s": 800}, "run_timeout": 120, "chunk": 4},
+                 {"world": "rt_ekf", "quick": {"runs": 100, "budget_s": 30}, "thorough": {"runs": 4000, "budget_s": 300}, "run_timeout": 120, "chunk": 4}],
+        "rule": "as C04 but update-heavy: interleaved sensor_model calls over all sensors of the model (1-3 readings each, unequal per-reading noise, calibration in h); every accepted update is compared with x+K(z-h), P-KHP of the reference; recorded innovation and S per key, isolation of other keys' records, posterior symmetric and <= prior, reading == prediction leaves the state unchanged",
+        "abstract_measure": "distinct (op kind, reading size, reject parity, #states/#controls/#calibration) tuples",
+        "expect_probes": ["probe:multi_reading_update", "probe:reading_equals_prediction", "probe:calibration=yes", "probe:discarded", "probe:model_multi_reading_sensor"],
+        "components": EKF_COMPONENTS,
+        "assumptions": EKF_ASSUMPTIONS,
+    },
+    "C09": {
+        "level": "exploration",
+        "legs": [{"world": "ekf", "quick": {"runs": 200, "budget_s": 60}, "thorough": {"runs": 8000, "budget_s": 800}, "run_timeout": 180, "chunk": 2},
+                 {"world": "rt_ekf", "quick": {"runs": 80, "budget_s": 30}, "thorough": {"runs": 3000, "budget_s": 300}, "run_timeout": 180, "chunk": 2}],
+        "rule": "long histories (50-300 steps quick, up to 1200 thorough) of predictions (both dt signs, within max_dt) and updates from SPD, rank-deficient PSD and identity covariances, biased to singular-jacobian models (the mass/z/v/a example is always in the mix); after every step: returned covariance symmetric/PSD to 1e-8 relative, and no refusal of a covariance that the reference says is valid to 1e-12 relative",
+        "abstract_measure": "distinct (op kind, reading size, reject parity, model shape) tuples",
+        "expect_probes": ["probe:model_singular_jacobian", "fault:singular_start", "probe:negative_dt", "probe:identity_start"],
+        "components": EKF_COMPONENTS,
+        "assumptions": EKF_ASSUMPTIONS,
+    },
+    "C06": {
+        "level": "exploration",
+        "legs": [{"world": "ekf", "quick": {"runs": 320, "budget_s": 45}, "thorough": {"runs": 12000, "budget_s": 600}, "run_timeout": 120, "chunk": 4}],
+        "rule": "update-heavy histories with corrupted-reading faults: spikes (10-1000 sigma), mantissa/exponent bit flips, boundary values placed at NIS = thr*(1 +- {1e-7,1e-5,1e-3,0.05}) and exactly representable ties / +-1 ulp on the selector model (S = diag(1,0.5)); k in {None,0.5,1,3,5}, m in 1..3; decision oracle = exact rational z^T S^-1 z vs 60-digit k*sqrt(2m)+m; a discard must leave state and covariance bit-identical while innovation and S are recorded",
+        "abstract_measure": "distinct (op kind, reading size, reject parity, model shape) tuples",
+        "expect_probes": ["fault:corrupt:spike", "fault:corrupt:bitflip", "fault:corrupt:boundary", "fault:corrupt:boundary_exact_tie", "fault:corrupt:boundary_ulp_above", "fault:corrupt:boundary_ulp_below", "probe:nis_exact_tie", "probe:discarded", "probe:filtering_disabled_update", "probe:multi_reading_update", "probe:nis_within_1e-6_of_threshold"],
+        "components": EKF_COMPONENTS,
+        "assumptions": EKF_ASSUMPTIONS + ["decisions are only demanded outside |NIS-thr| <= 1e-9*thr, except exactly representable ties (m=2: thr = 2k+2) where 'not discarded' is required"],
     },
 }
